@@ -36,3 +36,11 @@ package aggregations
 //@   ensures [two-slots-value-then-timestamp] implies(result1 == nil, result0 == idx + 2 && len(*allReverseIndex) == old(len(*allReverseIndex)) + 2 && (*allReverseIndex)[old(len(*allReverseIndex))] == idx && (*allReverseIndex)[old(len(*allReverseIndex)) + 1] == idx + 1)
 //@   ensures [value-then-timestamp-statistics] implies(result1 == nil, len(*allConvertedMeasureOps) == old(len(*allConvertedMeasureOps)) + 2 && (*allConvertedMeasureOps)[old(len(*allConvertedMeasureOps))].MeasureFunc == ite(isLatest, sutils.Latest, sutils.Earliest) && (*allConvertedMeasureOps)[old(len(*allConvertedMeasureOps)) + 1].MeasureFunc == ite(isLatest, sutils.LatestTime, sutils.EarliestTime))
 //@ end
+
+// C19: same discipline for the older inputlookup implementation.
+//@ func PerformInputLookup
+//@   props C19
+//@   requires aggs != nil && aggs.GenerateEvent != nil
+//@   site call os.Open #1:
+//@     assert [lookup-file-opened-only-below-the-lookups-directory] uf("confined", bool, arg0)
+//@ end
